@@ -59,21 +59,24 @@ def observed_values(ld, entry_id):
     sp = ld.get_symbol_state_space_p3(entry_id)
     items = list(sp.space if hasattr(sp, "space") else sp)
     out = {}
-    last_key = None
+    run_stmt = None
+    seen_in_run = set()
     for it in items:
         if type(it).__name__ != "Symbol":
             continue
+        sid = int(it.stmt_id)
+        if sid != run_stmt:
+            run_stmt = sid
+            seen_in_run = set()
         if it.name not in VARS:
-            last_key = None if int(it.stmt_id) != (last_key or (None,))[0] else last_key
             continue
-        key = (int(it.stmt_id), it.name)
-        # a statement such as `x = x + 1` has a use symbol and a definition symbol of the same name: the definition
-        # symbol is the one created last for the statement within one context; contexts repeat the whole group, so
-        # a new group starts when the same (stmt, name) is met again after other statements
-        if key in out and last_key == key:
-            out[key] = (set(), False)          # the previous entry of this run was the use symbol
+        key = (sid, it.name)
+        # a statement such as `x = x * y` has a use symbol and a definition symbol of the same name: within the
+        # consecutive group of symbols of one statement (one context) the definition symbol is the later one
+        if it.name in seen_in_run:
+            out[key] = (set(), False)
+        seen_in_run.add(it.name)
         vals, unk = out.get(key, (set(), False))
-        last_key = key
         for si in it.states:
             st = items[si] if 0 <= si < len(items) else None
             if st is None or type(st).__name__ != "State":
